@@ -65,6 +65,8 @@ type Out struct {
 	Snap  [][]int  `json:"snap,omitempty"`
 	// conc: per schedule step [] or [probe, answer, overlapped, step ran while the lookup was parked]
 	Gobs [][]int `json:"gobs,omitempty"`
+	// free: per goroutine, per call: [invocation tick, response tick, answer (Get)]
+	Events [][][]int `json:"events,omitempty"`
 }
 
 type strg struct{ s string }
@@ -355,8 +357,10 @@ func main() {
 	if v, err := strconv.ParseUint(os.Getenv("VERIF_C15_AS_MB"), 10, 64); err == nil && v >= 512 {
 		mb = v
 	}
-	lim := syscall.Rlimit{Cur: mb << 20, Max: mb << 20}
-	_ = syscall.Setrlimit(syscall.RLIMIT_AS, &lim)
+	if os.Getenv("VERIF_C15_AS_MB") != "0" { // "0": no limit (the race detector reserves a huge shadow address space)
+		lim := syscall.Rlimit{Cur: mb << 20, Max: mb << 20}
+		_ = syscall.Setrlimit(syscall.RLIMIT_AS, &lim)
+	}
 	logx.Disable()
 	var cases []Case
 	hx.ReadCases(&cases)
@@ -364,7 +368,9 @@ func main() {
 	defer w.Close()
 	initWheel()
 	for _, c := range cases {
-		if c.Kind == "conc" {
+		if c.Kind == "free" {
+			w.Put(runFree(c))
+		} else if c.Kind == "conc" {
 			w.Put(runConc(c))
 		} else if c.Kind == "script" {
 			w.Put(runScript(c))
